@@ -253,7 +253,10 @@ class GaussianNB(sk_nb.GaussianNB, DiffprivlibMixin):
             lower, upper = self.bounds[0][feature], self.bounds[1][feature]
             local_diameter = upper - lower
 
-            mech_mu = LaplaceTruncated(epsilon=local_epsilon, delta=0, sensitivity=local_diameter,
+            # A record that changes class is removed from one class's sum and added to another's, moving each sum by
+            # up to max(|lower|, |upper|), which exceeds the diameter when the bounds do not straddle zero
+            mech_mu = LaplaceTruncated(epsilon=local_epsilon, delta=0,
+                                       sensitivity=max(abs(lower), abs(upper), local_diameter),
                                        lower=lower * n_noisy, upper=upper * n_noisy, random_state=random_state)
             _mu = mech_mu.randomise(temp_x.sum()) / n_noisy
 
